@@ -284,11 +284,22 @@ def bitImg (shape : List Nat) (idx : Nat) : Img Int :=
 
 def digits (xs : List Int) : String := String.join (xs.map fun x => if x == 0 then "0" else "1")
 
-def handle (a : Args) : String :=
-  let shape := a.nats "shape"
+/-- the structuring element as the Python wrappers obtain it (round 4). Without `arg=` the pair
+    `bshape`/`bc` is the array handed to the kernel (protocol of rounds 1–3, and `hitmiss`, which does not
+    call `get_structuring_elem`). With `arg=none | arg=int v=<n> | arg=array bshape=… bc=…` the argument goes
+    through C01's model of `get_structuring_elem(f, Bc)`: `None` / integers through `translate_sizes` and the
+    cross loop, arrays through the cast to the dtype of the image (`dt=b1|u8|…`; `close_holes` casts to bool;
+    `dt` absent for float images, where every non-zero entry stays non-zero). -/
+def elemOf (a : Args) (ndim : Nat) : Except String (List Nat × Array Int) :=
+  if a.has "arg" then
+    let dt := if a.has "dt" then DT.ofName (a.str "dt") else dtI 64
+    match C01.getStructuringElem dt ndim (C01.bcArgOf a) with
+    | .ok e => .ok e
+    | .error e => .error (C01.showSEError e)
+  else .ok (a.nats "bshape", (a.ints "bc").toArray)
+
+def handleWith (a : Args) (shape bshape : List Nat) (bc : Array Int) : String :=
   let A : Img Int := { shape := shape, data := (a.ints "data").toArray }
-  let bshape := a.nats "bshape"
-  let bc := (a.ints "bc").toArray
   match a.str "kind" with
   | "loc" =>
     let isMin := a.nat "min" == 1
@@ -323,5 +334,11 @@ def handle (a : Args) : String :=
     let spec := idxs.map fun idx => digits ((closeHolesSpec (bitImg shape idx) nb).toList.map fun b => if b then 1 else 0)
     s!"model={String.join model} spec={String.join spec}"
   | k => s!"error=unknown-kind-{k}"
+
+def handle (a : Args) : String :=
+  let shape := a.nats "shape"
+  match elemOf a shape.length with
+  | .ok (bshape, bc) => handleWith a shape bshape bc
+  | .error e => s!"error=structuring-element-{e}"
 
 end Mahotas.C14
